@@ -173,11 +173,22 @@ def scan_rename_stream(ctx: Ctx, n: int):
         perm = list(range(9))
         rng.shuffle(perm)
         results = []
+        # which imports are written relative to module_path's parent directory (without the root package's name) instead of fully
+        # qualified: decided once per abstract case, the same for every naming
+        short_form = {(f, j): (rng.random() < 0.5) for f in leaves for j in range(4)}
+        root_id = rng.randrange(9)
         for names in (FREE, [ADV[perm[i]] for i in range(9)], [ADV2[perm[(i + 4) % 9]] for i in range(9)]):
-            root = "proj"
+            # the root directory is named like one of the components (FREE: m0..m8; adversarial: a name that is a prefix of others)
+            root = names[root_id] if it % 2 else "proj"
             nm = lambda x: tuple([root] + [names[i] for i in x])
             dirs = [(root,)] + [nm(x) for x in inner]
-            files = {nm(f): {"py": True, "body": [("import", [".".join(nm(t))]) for t in imports[f] if t != f]} for f in leaves}
+
+            def spell(f, j, t):
+                full = nm(t)
+                if mp_abs and f[:len(mp_abs)] == mp_abs and short_form[(f, j)]:
+                    return ".".join(full[1:])          # relative to module_path's parent (= the root directory, module_path being one level below)
+                return ".".join(full)
+            files = {nm(f): {"py": True, "body": [("import", [spell(f, j, t)]) for j, t in enumerate(imports[f]) if t != f]} for f in leaves}
             base = scan.materialise(dirs, files)
             try:
                 r = scan.real_scan(base, root, nm(mp_abs), **kw)
@@ -189,6 +200,11 @@ def scan_rename_stream(ctx: Ctx, n: int):
                 continue
             back = {".".join(nm(x)): x for x in anodes}
             back[root] = ()
+            for x in anodes:
+                # a name written without the root package that is NOT resolved into the scanned sub tree stays an external name
+                # (and brings its ancestors along): the same abstract thing under every naming
+                for i in range(1, len(x) + 1):
+                    back.setdefault(".".join(nm(x[:i])[1:]), ("unqualified", x[:i]))
             mods = frozenset(back.get(m, ("?", m)) for m in r[1])
             eds = frozenset((back.get(a, ("?", a)), back.get(b, ("?", b))) for a, b in r[2])
             results.append(("OK", mods, eds))
